@@ -20,4 +20,10 @@ CHECKS = {
         "text": "TLC proves on the finite representation graph that the implementation-shaped conversion tables equal the SI/physical definitions on every path (identity, inverse, composition); every edge of that graph, and every missing/unknown-argument pattern, is then executed on the real functions with scalar/0-d/1-d/Series values and validated against the outcomes the specification allows (monomials evaluated to 1e-9), and the unit tables are audited against SI constants.",
         "note": "Trusted: the Canon definitions in spec/Units.tla, reference_constants.json (SI/CODATA, STP 22413.969 cm3/mol), the adsorbate/material property methods as the meaning of psat/M/densities (their consistency is C20). Data independence is sampled over 4 container kinds and 6 magnitudes, not proved.",
     },
+    "C02": {
+        "level": "model_checking",
+        "technique": "TLA+ state machine of permanent conversions (spec/IsoConvert.tla: prescriptive Judge + implementation-shaped ImplStep) model-checked exhaustively by TLC over all histories (IsoConvertMC), bound to the code by a TLC step oracle over exhaustive single steps on real PointIsotherms and by replay of TLC -simulate behaviours",
+        "text": "TLC explores every conversion history of the label/monomial abstraction (all label states of the factorised space, 327 operations each incl. omitted/unknown arguments) and checks Valid, Consistent (data = original converted directly), RoundTrip and that each implementation step is prescriptively allowed; every (label state, operation) step is then executed on a real PointIsotherm and judged by the TLC oracle from the actual pre-state (labels, outcome, refusal rights, data monomials evaluated to 1e-9, auxiliary columns/metadata untouched, constructor re-validation); TLC-generated and seeded 12-step histories are replayed and returned to the start representation.",
+        "note": "Trusted: Canon definitions of spec/Units.tla; the constructor's acceptance test as transcribed in IsoValid (also run literally); data independence sampled over 3 data sets; quick tier visits a seeded 4.5% slice of the 169 290 loading x material single steps (thorough: all).",
+    },
 }
